@@ -175,9 +175,13 @@ def enumerate_case(contract, case, evaluate, maxlen, cap, seed, stop_after_failu
         if bad and len(stats["failures"]) < stop_after_failures:
             stats["failures"].append({"clauses": bad, "inputs": dict(S.export), "outcome": oc, "exc": res.get("exc")})
 
+    # Phase 1: lexicographic (odometer) enumeration.  It is exhaustive when it finishes within a third of the budget.  When
+    # it does not, a lexicographic PREFIX is a poor sample (the early choice points -- array lengths and labels -- hardly
+    # move while the late ones cycle), so phase 2 spends the rest of the budget on uniform random choices at every point.
     schedule = []
     n = 0
-    while schedule is not None and n < cap:
+    first = max(cap // 3, 1)
+    while schedule is not None and n < first:
         S = FamilySpec(list(schedule), maxlen)
         one(S)
         n += 1
@@ -186,8 +190,7 @@ def enumerate_case(contract, case, evaluate, maxlen, cap, seed, stop_after_failu
         stats["exhaustive"] = True
     else:
         rng = random.Random(seed)
-        extra = cap // 2
-        for _ in range(extra):
+        for _ in range(cap - first):
             S = FamilySpec([], maxlen, rng=rng)
             one(S)
             stats["sampled"] += 1
